@@ -333,7 +333,15 @@ fn main() {
         *threads_hist.entry(run.threads.len()).or_default() += 1;
         let mut o = out.lock();
         if let Some(msg) = &rep.aborted {
-            let class = if msg.contains("deadlock") { "deadlock" } else { "execution-aborted" };
+            // a shuttle primitive reached from outside the simulated execution is
+            // harness trouble (e.g. the code under test started real threads), not a verdict
+            let class = if msg.contains("ExecutionState") {
+                "harness-outside-execution"
+            } else if msg.contains("deadlock") {
+                "deadlock"
+            } else {
+                "execution-aborted"
+            };
             let mut r = (*run).clone();
             r.schedule = Some(rep.schedule.clone());
             let _ = writeln!(o, "{}", json!({"t":"violation","class":class,"detail":simcommon::preview(msg, 400),"run":r.to_json()}));
